@@ -79,6 +79,7 @@ THEOREM_CLASSES = {
     "C12_hashmap_irreflexive_keys": "corollary",
     "C12_hashmap_rehash_preserves_bindings": "main",
     "C12_hashmap_is_flat_map": "main",                       # the iteration-ORDER clause: order, capacity, bucket count independent of the hash
+    "C12_hashmap_next_is_flat_and_refines_map": "main",      # next(m) / next(m, k) on its own (outside the step relation)
     "C12_hashmap_hash_independent_exact": "corollary",       # of the flat-map theorem
     "C12_hashmap_histories_below_2p50": "corollary",         # the two above without the Overflow branch
     "C12_hashmap_hash_independent": "corollary",             # weaker (Permutation-level) form for association-list-related starts
@@ -89,6 +90,8 @@ THEOREM_CLASSES = {
     "C12_hash_coherent_string_float32": "main",              # clause "equal keys hash alike" for string and float32 keys
     "C12_iterators_visit_in_order": "main",                  # clause "iteration order or coverage" for the for-in iterators
     "C12_iterators_references_alias": "corollary",           # mipairs/mpairs/mnext references (beyond the clauses)
+    "C12_iterators_update_through_references": "corollary",  # whole update loops through mipairs/mpairs references
+    "C12_select_returns_suffix": "definitional",             # the model of select is its specification (compile-time selection)
     "C12_hash_byte_loop_total": "corollary",                 # the model's fuel/default are dead code
     "C12_hash_coherent_integer_boolean": "corollary",        # == on integers/booleans is Leibniz equality
     "C12_stringbuilder_step_refines_bytes": "main",
@@ -120,7 +123,7 @@ TYPES = {0: "integer", 1: "string", 2: "record", 3: "number"}
 OPN = {
     1: {1: "push", 2: "pop", 3: "insert", 4: "remove", 5: "removevalue", 6: "removeif", 7: "resize", 8: "reserve", 9: "clear", 10: "copy", 11: "at", 12: "assign", 13: "destroy", 14: "convert", 15: "unpack", 16: "scoped-close", 17: "mnext-walk"},
     3: {1: "pushfront", 2: "pushback", 3: "popfront", 4: "popback", 5: "insertbefore", 6: "erasevalue", 7: "find", 8: "clear", 9: "empty", 10: "erase(nilptr)", 11: "destroy", 12: "scoped-close", 13: "mnext-walk"},
-    4: {1: "set", 2: "get", 3: "peek", 4: "has", 5: "has_and_get", 6: "remove", 7: "erase", 8: "clear", 9: "reserve", 10: "rehash", 11: "erase-while-iterating", 12: "next(k)", 13: "next()", 14: "probe", 15: "mpairs-update", 16: "next-traversal", 17: "destroy"},
+    4: {1: "set", 2: "get", 3: "peek", 4: "has", 5: "has_and_get", 6: "remove", 7: "erase", 8: "clear", 9: "reserve", 10: "rehash", 11: "erase-while-iterating", 12: "next(k)", 13: "next()", 14: "probe", 15: "mpairs-update", 16: "next-traversal", 17: "destroy", 18: "mnext-walk"},
     6: {1: "write", 2: "writebyte", 3: "prepare/commit", 4: "rollback", 5: "resize", 6: "clear", 7: "promote", 8: "commit-over", 9: "prepare", 10: "destroy", 11: "write(integer)", 12: "write(boolean)", 13: "write(integer,bytes,boolean)"},
     7: {1: "at", 2: "sub", 3: "sub-at", 4: "sub-sub"},
 }
@@ -399,6 +402,10 @@ class OMap:
             # the traversal calls next(m, k) with every visited key: a NaN key is an invalid key for next
             if self.nan: raise Violation("InvalidKey")
             return ("v", self.pairs())
+        if op == 18:
+            # mnext(m, k) looks every visited key up: a NaN key is an invalid key
+            if self.nan: raise Violation("InvalidKey")
+            return "m%d" % self.size()
         if op == 17:
             d.clear(); self.nan = []; return "-"
         raise KeyError(op)
@@ -636,7 +643,8 @@ def gen_history(rng, kind, typ, nsteps, maxsize, big=False):
                 elif r < 0.56: emit(10, rng.choice([0, 0, 0, 1, n, 2 * n, 64]))
                 elif r < 0.62 and live: emit(12, alias(rng.choice(live)))
                 elif r < 0.65: emit(13)
-                elif r < 0.72 and not o.nan: emit(16)
+                elif r < 0.70 and not o.nan: emit(16)
+                elif r < 0.72 and not o.nan: emit(18)
                 elif r < 0.78:
                     lo = min(univ[:8]) ; emit(14, lo, lo + rng.randrange(0, 12))
                 elif r < 0.82: emit(15, rng.randrange(1, 5))
@@ -831,9 +839,10 @@ def gen_hash_cases(rng, n):
         cases.append((15, b, 0, 0))
         cases.append((16, b, b ^ 0x80000000, 0))
         cases.append((16, b, b, 0))
+    cases.append((18, 10, 20, 0))        # the witness of the repaired select defect (/repo 6bf5a38): must print `20 30`
     for _ in range(6):
         a = s64(rng.getrandbits(64)); b = rng.randrange(-99, 99)
-        cases += [(17, a, b, 0), (18, a, b, 0), (19, a, b, 0)]
+        cases += [(17, a, b, 0), (18, a, b, 0), (19, a, b, 0), (21, a, b, 0), (22, a, b, 0)]
     for _ in range(max(6, n // 20)):
         cases.append((20, rng.randrange(0, 500), rng.choice([0, 1, 2, 31, 32, 33, 100, 1000]), 0))
     return cases
@@ -1220,7 +1229,7 @@ def correspond(ctx):
         pos += 1
         evaluations += 1
         n_hash += 1
-        bump(stats["ops"], "hash.%s" % {1: "integer", 2: "float", 3: "string", 4: "record", 5: "boolean", 6: "float==", 7: "record==", 8: "array-of-integer", 9: "array-of-float", 10: "typed-pointer", 11: "pointer", 12: "span-of-integer", 13: "union", 14: "empty-array", 15: "float32", 16: "float32==", 17: "select#", 18: "select(2)", 19: "select(-1)", 20: "string=="}[op])
+        bump(stats["ops"], "hash.%s" % {1: "integer", 2: "float", 3: "string", 4: "record", 5: "boolean", 6: "float==", 7: "record==", 8: "array-of-integer", 9: "array-of-float", 10: "typed-pointer", 11: "pointer", 12: "span-of-integer", 13: "union", 14: "empty-array", 15: "float32", 16: "float32==", 17: "select#", 18: "select(2)", 19: "select(-1)", 20: "string==", 21: "select(-2)", 22: "select(1)"}[op])
         if op == 6:
             if iline != ("1" if py_feq(a, b) else "0"):
                 n_oracle += 1
@@ -1230,19 +1239,20 @@ def correspond(ctx):
                 n_oracle += 1
                 ctx.violation("hash:feq32 %d %d" % (a, b), "oracle", "float32 == on bit patterns %x, %x gives %s" % (a, b, iline))
         if op == 18 and iline == "%d nil" % b:
-            # one class of input, one key: `local x, y = select(2, a, b, c)` leaves y nil
+            # regression of /repo 6bf5a38 (select returned only its i-th argument); one class of input, one key
             n_oracle += 1
             if not sel_reported:
                 sel_reported = True
                 ctx.violation("iterators:select(2, a, b, c) returns only b", "oracle",
                               "select(i, ...) returns only its i-th argument instead of `all arguments after argument number index` (iterators.nelua's own documentation, and Lua): `local x, y = select(2, %d, %d, %d)` gives x = %d and y = nil" % (a, b, a ^ b, b),
                               detail={"program": "require 'iterators'\nlocal x, y = select(2, %d, %d, %d)\nprint(x, y)   -- prints '%d nil', Lua prints '%d %d'" % (a, b, a ^ b, b, b, a ^ b)})
-        elif op == 17 and iline != "3" or op == 18 and iline != "%d %d" % (b, a ^ b) or op == 19 and iline != "%d" % (a ^ b) or op == 20 and iline != "1 1 0":
+        elif (op == 17 and iline != "3" or op == 18 and iline != "%d %d" % (b, a ^ b) or op == 19 and iline != "%d" % (a ^ b) or op == 20 and iline != "1 1 0"
+              or op == 21 and iline != "%d %d" % (b, a ^ b) or op == 22 and iline != "%d %d %d" % (a, b, a ^ b)):
             n_oracle += 1
             ctx.violation("iterators:select/string %d %d %d" % (op, a, b), "oracle", "select / string == case %d on (%d, %d) printed %s" % (op, a, b, iline))
         if op in (2, 4, 9, 15):
             hash_vals[(op, a, b)] = iline
-        if iline != mline and not (op == 18 and iline == "%d nil" % b):
+        if iline != mline and not (op == 18 and iline == "%d nil" % b and sel_reported):
             n_mismatch += 1
             if n_mismatch <= 3:
                 ctx.violation("model-mismatch:hash.%d" % op, "correspondence", "hash model differs from hash.hash on case %d %d %d: model %s, implementation %s" % (op, a, b, mline, iline),
@@ -1446,10 +1456,10 @@ def correspond(ctx):
 
 UNPROVED = [
     "model = code is not a theorem: lib/{vector,sequence,list,hashmap,span,stringbuilder,hash}.nelua are mirrored by hand in coq/C12/Model.v (one Gallina function per source function); the tie is the scraped constants (Gen.v) plus the step-by-step differential runs of the compiled library against the extracted model and the Python oracle, also under ASan/UBSan",
-    "lib/iterators.nelua is modelled as stateless iterator triples driven by a generic for loop (Model.v: for_in/for_do/ip_next, vec_ipairs, span_ipairs, seq_pairs, dl_pairs, hm_for_pairs, vec_mipairs_map, dl_mpairs_map, hm_for_mpairs); PROVED: ipairs over vector and span, pairs over list and hashmap visit exactly the abstract contents in order, the vector reference of mipairs aliases the element and the whole `$x = f($x)` loop is the element-wise update, the list/hashmap references of mnext are the node whose value next yields. NOT proved (modelled only): pairs over sequence (seq_pairs), the whole mpairs update loops of list and hashmap (dl_mpairs_map, hm_for_mpairs = hm_mapvals); `for` bodies that change the container's shape are outside the model. Exercised by the driver: ipairs/mipairs/pairs/mpairs, mnext walks over vector, sequence and list (reference identity checked), next over hashmap, select; mnext over hashmap is not exercised. OPEN FINDING: select(i, ...) returns one value instead of all arguments after i (known_findings/C12.json)",
+    "lib/iterators.nelua is modelled as stateless iterator triples driven by a generic for loop (Model.v: for_in/for_do/ip_next, vec_ipairs, span_ipairs, seq_pairs, dl_pairs, hm_for_pairs, vec_mipairs_map, dl_mpairs_map, hm_for_mpairs); PROVED: ipairs over vector and span, pairs over list and hashmap visit exactly the abstract contents in order, the vector reference of mipairs aliases the element and the whole `$x = f($x)` loop is the element-wise update, the list/hashmap references of mnext are the node whose value next yields. ALSO PROVED since: pairs over sequence, the whole `$x = f($x)` loops through mpairs of list and hashmap (= hm_mapvals); `for` bodies that change the container's shape are outside the model. Exercised by the driver: ipairs/mipairs/pairs/mpairs, mnext walks over vector, sequence and list (reference identity checked), next over hashmap, select; mnext over hashmap (reference identity checked). select is a definitional model (C12_select_returns_suffix); its defect (one value returned) was repaired in /repo 6bf5a38 and the witness is replayed on every run",
     "hashmap: the model runs with a hash on value tokens while the implementation hashes the real values; this is covered by C12_hashmap_is_flat_map / C12_hashmap_hash_independent_exact (every hash that respects == gives identical results, order, capacity and bucket count) TOGETHER WITH the coherence of the real hashes, which is proved only for integer, boolean, float64 (+-0, NaN), record{integer,number}, arrays/spans/pointers/unions as functions of the compared bytes; strings (== on the bytes, hash.long over the bytes) and float32 are covered by C12_hash_coherent_string_float32; other record shapes are not covered",
     "hashmap: the distinguished Overflow outcome (roundpow2 wrapped in usize; the implementation would continue with a zero-sized table) is excluded by theorem only below 2^50 bindings/requested counts (C12_hashmap_no_overflow_below_2p50); at or above that the model says Overflow and nothing is claimed about the code",
-    "hashmap next(m,k)/__next is still not an operation of the step relation hop (requested in the last round, not done): C12_hashmap_next_follows_iteration_order covers it separately and the flat-map theorem does not mention it",
+    "hashmap next(m,k)/__next is not an operation of the step relation hop, deliberately: it is the only hashmap operation with a failing precondition (absent key), and the step / history / flat-map theorems have the two-outcome shape `Overflow or the specification's result`; admitting it would add a third outcome to every one of those statements. It is covered on its own by C12_hashmap_next_is_flat_and_refines_map (equal to the hash-free flat next; absent key stopped; returned bindings are bindings of the map) and C12_hashmap_next_follows_iteration_order, so histories that interleave next with other operations are covered only operation by operation",
     "allocation failure: theorems are about the model with an allocation oracle (refused request = panic before any change); that the library's x-allocators panic is checked by the driver with a refusing allocator, not proved; the gc/general allocators themselves are C11's subject; counts whose byte size overflows (Allocator span operations, /repo 942989e) are outside the model (sizes are exact naturals)",
     "stringbuilder: histories are covered under the static protocol condition sb_op_ok (the client writes at most the n bytes it asked prepare for), a sufficient condition for the state-dependent one of the step theorem (at most the span prepare returned); write of integer/boolean arguments is modelled as write of the rendered bytes (the rendering, strconv.int2str, is C14's theorem in another sub-project: here driver and oracle render and the correspondence compares); float arguments (num2str), writef/formatarg (string.format) and __tostring are not modelled",
     "list __convert (needs a fixed-size array literal) is not exercised; vector/sequence __convert is exercised through conversion from a span; __close is exercised at harness level only (a scoped to-be-closed container, also under the sanitizer build), in the model it is destroy",
